@@ -104,6 +104,7 @@ func historySweep(c *core.Ctx, sig string, alphabet []letter, exhaustLen, random
 		{key: []byte("k3y"), host: []byte("h"), ack: false},
 		{key: []byte{}, host: []byte("h"), ack: false}, // configured (non-nil) but empty: a handshake is still required
 		{key: []byte("k3y"), host: []byte("h"), ack: true},
+		{key: []byte("k3y"), host: []byte("h"), ack: false, keyByField: true},
 		{key: nil, host: []byte("h"), ack: true},
 		{key: nil, host: []byte("h"), ack: true, timeout: 15 * time.Millisecond},
 	}
